@@ -4,6 +4,8 @@
 // Counts mutating file-system calls of that process: open*/creat for writing, write/pwrite on
 // such descriptors, unlink*, mkdir*, rename*, rmdir, truncate*. Before the K-th such call
 // (KILLPOINT_K, 1-based; 0/unset = never) the process dies with _exit(137), as if killed.
+// With KILLPOINT_TORN=1 a K-th call that is a write()/pwrite() is TORN instead: the first half of its
+// bytes reaches the file, then the process dies (a crash in the middle of writing a file).
 // Every counted call is appended to KILLPOINT_LOG (if set) as "<n> <op> <path>".
 #define _GNU_SOURCE
 #include <dlfcn.h>
@@ -20,6 +22,8 @@ static int active = -1;
 static long kill_at = 0;
 static long counter = 0;
 static int log_fd = -1;
+static int torn = 0;
+static int tear_now = 0;
 static unsigned char wfd[4096];
 
 static ssize_t (*real_write)(int, const void *, size_t);
@@ -37,6 +41,8 @@ static void init(void) {
     if (!strstr(exe, want)) return;
     const char *k = getenv("KILLPOINT_K");
     kill_at = k ? atol(k) : 0;
+    const char *tn = getenv("KILLPOINT_TORN");
+    torn = tn && *tn == '1';
     const char *lg = getenv("KILLPOINT_LOG");
     if (lg) {
         int (*real_open)(const char *, int, ...) = dlsym(RTLD_NEXT, "open");
@@ -50,6 +56,10 @@ static void hit(const char *op, const char *path) {
     if (active != 1) return;
     long n = __sync_add_and_fetch(&counter, 1);
     if (kill_at > 0 && n >= kill_at) {
+        if (torn && op[0] == 'w' && n == kill_at) {
+            tear_now = 1;
+            return;
+        }
         _exit(137);
     }
     if (log_fd >= 0) {
@@ -110,6 +120,10 @@ ssize_t write(int fd, const void *buf, size_t n) {
     init();
     if (!real_write) real_write = dlsym(RTLD_NEXT, "write");
     if (fd >= 0 && fd < 4096 && wfd[fd]) hit("write", "");
+    if (tear_now) {
+        if (n > 1) real_write(fd, buf, n / 2);
+        _exit(137);
+    }
     return real_write(fd, buf, n);
 }
 
@@ -117,6 +131,10 @@ ssize_t pwrite(int fd, const void *buf, size_t n, off_t off) {
     static ssize_t (*real)(int, const void *, size_t, off_t);
     if (!real) real = dlsym(RTLD_NEXT, "pwrite");
     if (fd >= 0 && fd < 4096 && wfd[fd]) hit("pwrite", "");
+    if (tear_now) {
+        if (n > 1) real(fd, buf, n / 2, off);
+        _exit(137);
+    }
     return real(fd, buf, n, off);
 }
 
